@@ -33,6 +33,10 @@ positive IN / EXISTS (they have no NULL asymmetry). (R7) a subquery with LIMIT /
  (R8) the two subquery-to-join conversions agree on what a join cannot express: in optimizer::subquery_to_join every
       function that answers Some(join) for a subquery (IN and EXISTS forms) decides that the subquery's OFFSET is None and
       tests its LIMIT on the way (a semi / anti join ignores a per-outer-row cut).
+ (R9) a hash join is chosen only for key columns with one value representation: hash tables match keys by SqlValue
+      equality, which tells Integer(1) from Bigint(1) and Float(1.0), while the `=` that the nested loop evaluates does not;
+      in join_analyzer every Some(EquiJoinInfo) answer of analyze_single_equi_join (all hash-join paths go through it) is
+      decided by a test that reads the declared types of both key columns.
 """
 import re
 from ..engine.facts import callee_name
@@ -265,6 +269,7 @@ def run(ctx):
     _run_main(ctx)
     _rewrite_cut_rule(ctx)
     _join_conversion_cut_rule(ctx)
+    _hash_key_type_rule(ctx)
 
 
 def _rewrite_cut_rule(ctx):
@@ -341,3 +346,41 @@ def _join_conversion_cut_rule(ctx):
             ctx.finding(f'R8/{short}', f'{f.nice} converts a subquery into a semi / anti join without deciding that it has no OFFSET (and without looking at its LIMIT): '
                         'WHERE EXISTS (SELECT 1 FROM b WHERE b.y = a.x OFFSET 1) is true for outer rows with a single match', f.loc)
     ctx.floor('C05.R8 subquery-to-join conversions', n, 2)
+
+
+def _hash_key_type_rule(ctx):
+    prog = ctx.prog
+    ctx.rule('C05.R9', 'join_analyzer::analyze_single_equi_join: every Some(EquiJoinInfo{..}) answer is decided by a condition that reads the data types of both key columns '
+             '(two column_data_type / .data_type reads in one deciding call); analyze_equi_join / analyze_compound_equi_join / analyze_or_equi_join reach no other producer of EquiJoinInfo')
+    f = ctx.fn('vibesql_executor::select::join::join_analyzer::analyze_single_equi_join')
+    s = Sym(f)
+    somes = []
+    for bi, b in enumerate(f.blocks):
+        for st in b['s']:
+            if 'd' in st and st['d'][0] == 0 and not st['d'][1] and st['v']['r'] == 'agg' and st['v'].get('variant') == 'Some':
+                somes.append((bi, st['l']))
+    ctx.floor('C05.R9 Some(EquiJoinInfo) answers', len(somes), 2)
+    ok = True
+    for bi, line in somes:
+        conds = shared.deciding_conditions(f, bi, s)
+        typed = [c for c, v in conds if v != '0' and len(re.findall(r'data_type', c)) >= 2]
+        if not typed:
+            ok = False
+    # no other function builds an EquiJoinInfo
+    others = []
+    for g_ in prog.fns.values():
+        if g_.unit != 'vibesql_executor' or shared.is_test(g_) or g_ is f or g_.trait:      # derived Clone copies an existing one
+            continue
+        for b in g_.blocks:
+            for st in b['s']:
+                if 'd' in st and st['v']['r'] == 'agg' and str(st['v'].get('adt', '')).endswith('join_analyzer::EquiJoinInfo'):
+                    others.append(g_.nice)
+    ctx.instance('R9/analyze_single_equi_join', {'rule': 'C05.R9', 'fn': f.nice, 'loc': f.loc, 'answers': len(somes), 'decided_by_key_column_types': ok,
+                                                  'other_producers_of_EquiJoinInfo': sorted(set(others))})
+    if not ok:
+        ctx.finding('R9/analyze_single_equi_join', 'analyze_single_equi_join answers "hash join on these two columns" without looking at their declared types: a JOIN b ON a.x = b.w '
+                    'with x INT and w BIGINT (or FLOAT / NUMERIC) returns no rows, because the hash table tells Integer(1) from Bigint(1), while ON a.x + 0 = b.w + 0 '
+                    '(nested loop) matches', f.loc)
+    for o in sorted(set(others)):
+        ctx.finding(f'R9/other-producer/{o.rsplit("::", 1)[1]}', f'{o} builds an EquiJoinInfo without going through analyze_single_equi_join (the key-column type test is bypassed)',
+                    prog.by_nice[o][0].loc)
